@@ -441,6 +441,12 @@ func (s *session) newManifest(rec *sessionRecord, v *version) (err error) {
 			s.manifestWriter = writer
 			s.manifest = jw
 			s.manifestDirty = false
+			// Nothing mentions the tables of discarded transactions any
+			// more.
+			for _, tfd := range s.keptTables {
+				s.tops.remove(tfd)
+			}
+			s.keptTables = nil
 		} else {
 			writer.Close()
 			if rerr := s.stor.Remove(fd); err != nil {
